@@ -85,8 +85,9 @@ pub fn build_step(
     }
 
     if !step.catches.is_empty() {
-        let mut catch_prev = node.clone();
         for catch in step.catches.iter_mut() {
+            // the steps of one handler form a chain of their own below the node
+            let mut catch_prev = node.clone();
             for step in catch.steps.iter_mut() {
                 build_step(
                     step,
@@ -101,8 +102,9 @@ pub fn build_step(
         }
     }
     if !step.timeout.is_empty() {
-        let mut timeout_prev = node.clone();
         for timeout in step.timeout.iter_mut() {
+            // the steps of one handler form a chain of their own below the node
+            let mut timeout_prev = node.clone();
             for step in timeout.steps.iter_mut() {
                 build_step(
                     step,
@@ -184,8 +186,9 @@ pub fn build_act(
     }
 
     if !act.catches.is_empty() {
-        let mut catch_prev = node.clone();
         for catch in act.catches.iter_mut() {
+            // the steps of one handler form a chain of their own below the node
+            let mut catch_prev = node.clone();
             for step in catch.steps.iter_mut() {
                 build_step(
                     step,
@@ -200,8 +203,9 @@ pub fn build_act(
         }
     }
     if !act.timeout.is_empty() {
-        let mut timeout_prev = node.clone();
         for timeout in act.timeout.iter_mut() {
+            // the steps of one handler form a chain of their own below the node
+            let mut timeout_prev = node.clone();
             for step in timeout.steps.iter_mut() {
                 build_step(
                     step,
